@@ -13,7 +13,9 @@ def run(res, tier):
     res.extra.setdefault("source_files_sha256", {}).update(mprop.source_hashes(["src/engine.rs", "src/store.rs"]))
     visits = 3 if tier == "quick" else 4
     body = E.prog.find("src/engine.rs", "PubPoint", "process_collected")
-    paths = E.explore(body, max_visits=visits, nomut=[r"."],
+    storep = mir.Opq("&mut StoredPoint", "store")
+    sp_fields = mir.struct_fields("StoredPoint", "src/store.rs")
+    paths = E.explore(body, max_visits=visits, nomut=[r"."], arg_values={"_3": {(): storep}},
                       inline=[r"StoredPoint::update$", r"StoredPoint::_update$", r"UpdateError::fatal$"])
     res.functions += ["engine::PubPoint::process_collected (MIR) with StoredPoint::update, StoredPoint::_update and the "
                       "update closure inlined"]
@@ -89,6 +91,22 @@ def run(res, tier):
                 if later:
                     fn = mprop.write_cex(res, "abort_then_%d" % i, p, E, "after an aborted object generator: %s" % later)
                     res.violation("mir:store:abort-not-clean", "an aborted update is followed by %s" % later, fn)
+        # 2b. the in-memory stored point (manifest, open file) changes only once the new version is persisted
+        for loc, at in p.writes:
+            if loc[:2] == (("o", storep.id), "deref") and len(loc) >= 3 and loc[2][0] == "f":
+                fld = sp_fields[loc[2][1]]
+                if fld not in ("manifest",):
+                    continue
+                okp = [e for e in evs[:at] if e.kind == "call" and re.search(r"persist$", e.name)]
+                if not okp or is_ok(E, p, okp[-1]) is None or not must(E, p, is_ok(E, p, okp[-1])):
+                    key = "mir:store:in-memory-%s-changed-before-persist" % fld
+                    if not any(v["key"] == key for v in res.violations):
+                        fn = mprop.write_cex(res, "early_%s_write_%d" % (fld, i), p, E,
+                                             "StoredPoint.%s is overwritten before the new version has been persisted; after "
+                                             "an abandoned update the stored point would pair the fetched manifest with the "
+                                             "old objects" % fld)
+                        res.violation(key, "the stored point's in-memory %s is replaced before the update is complete "
+                                      "(an aborted fetch no longer leaves the previous version usable)" % fld, fn)
         # 3. no direct reject of the stored point from the update path
         if any(e.kind == "call" and re.search(r"StoredPoint::reject$", e.name) for e in evs):
             fn = mprop.write_cex(res, "reject_in_update_%d" % i, p, E, "StoredPoint::reject called directly from process_collected")
